@@ -325,7 +325,7 @@ def getDimensionality (R : Registry) (u : UC) : Except Err UC :=
 /-- `scale ** exp2` in exact arithmetic; `none` when the result is not (known to be) rational -/
 def powRat (s e : Rat) : Option Rat :=
   if e.den = 1 then (if s = 0 ∧ e.num < 0 then none else some (s ^ e.num))
-  else if s = 1 then some 1 else none
+  else none   -- Python computes a non-integer power in float, even `1 ** Fraction(1, 2)`
 
 /-- accumulators of `_get_root_units_recurse`: the `None` slot (factor) and the unit slots -/
 structure RootAcc where
